@@ -209,24 +209,14 @@ def run_streams(ctx, streams, jobs_of, cansay=True):
 
 
 def judge_streams(ctx, sc, traces, name='strace', timeout=3000):
-    path = sc.file(name + '.ndjson')
-    nev = 0
-    with open(path, 'w') as f:
-        for t in traces:
-            nev += len(t['ev']) // 3
-            f.write(json.dumps({k: v for k, v in t.items() if k != 'mech'}, separators=(',', ':')) + '\n')
-    cpath = sc.file(name + '.cfg')
-    tlc.write_cfg(cpath, spec='TraceSpec')
-    r = tlc.run(os.path.join(tlc.SPEC, 'Trace_Stream.tla'), cpath, sc, env={'TRACE_FILE': path}, timeout=timeout,
-                heap='16g')
-    ctx.add_tlc(name, r)
-    if not r.ok:
-        raise core.Machinery('stream acceptor failed: %s\n%s' % (r.errors[:3], r.out[-2500:]))
-    if r.distinct != nev + len(traces):
-        raise core.Machinery('stream acceptor consumed %d states, expected %d events + %d traces' % (
-            r.distinct, nev, len(traces)))
+    slim = [{k: v for k, v in t.items() if k != 'mech'} for t in traces]
+    try:
+        printed = tlc.run_traces(ctx, sc, 'Trace_Stream', slim, name, nev=lambda t: len(t['ev']) // 3, max_events=400000,
+                                 heap='16g', timeout=timeout)
+    except tlc.AcceptorFailure as e:
+        raise core.Machinery('stream acceptor failed: %s' % e)
     rejects, devs = [], {}
-    for p in r.printed:
+    for p in printed:
         if isinstance(p, list) and len(p) == 4 and p[0] == 'REJECT':
             rejects.append((p[1], p[2], p[3]))
         if isinstance(p, list) and len(p) == 4 and p[0] == 'DEV':
@@ -250,20 +240,17 @@ def judge_mech(ctx, sc, traces, name='mtrace', timeout=3000):
                 break
         if len(st) >= 2:
             break
-    path = sc.file(name + '.ndjson')
-    nev = 0
-    with open(path, 'w') as f:
-        for t in mt + st:
-            nev += len(t['ev']) // 4
-            f.write(json.dumps(t, separators=(',', ':')) + '\n')
-    cpath = sc.file(name + '.cfg')
-    tlc.write_cfg(cpath, spec='TraceSpec')
-    r = tlc.run(os.path.join(tlc.SPEC, 'Trace_Mech.tla'), cpath, sc, env={'TRACE_FILE': path}, timeout=timeout, heap='16g')
-    ctx.add_tlc(name, r)
-    if not r.ok:
-        raise core.Machinery('mechanism acceptor failed: %s\n%s' % (r.errors[:3], r.out[-2500:]))
-    if r.distinct != nev + len(mt) + len(st):
-        raise core.Machinery('mechanism acceptor consumed %d states, expected %d' % (r.distinct, nev + len(mt) + len(st)))
+    nev = sum(len(t['ev']) // 4 for t in mt + st)
+    try:
+        printed = tlc.run_traces(ctx, sc, 'Trace_Mech', mt + st, name, nev=lambda t: len(t['ev']) // 4, max_events=600000,
+                                 heap='16g', timeout=timeout)
+    except tlc.AcceptorFailure as e:
+        raise core.Machinery('mechanism acceptor failed: %s' % e)
+
+    class _R:      # noqa
+        pass
+    r = _R()
+    r.printed = printed
     rej = sorted({(p[1], p[2], p[3]) for p in r.printed if isinstance(p, list) and len(p) == 4 and p[0] == 'REJECT'})
     if st and {x[0] for x in rej if x[0] >= SELFTEST_BASE} != {t['id'] for t in st}:
         raise core.Machinery('mechanism acceptor self-test failed (a dropped rewind was not rejected)')
@@ -307,6 +294,7 @@ def finish_streams(ctx, sc, traces, meta, clauses=None, name='strace'):
         raise core.Machinery('stream acceptor self-test failed')
     ctx.extra['stream_acceptor_selftest'] = '%d corrupted traces, all rejected' % len(st)
     bad = set()
+    byid = {t['id']: t for t in traces}
     for tid, j, clause in rejects:
         if tid >= SELFTEST_BASE:
             continue
@@ -319,7 +307,7 @@ def finish_streams(ctx, sc, traces, meta, clauses=None, name='strace'):
              'kinds': sorted(P.kinds_in(m['T']))}
         if (tid, j) in devs:
             f['devs'] = devs[(tid, j)]
-        tr = [t for t in traces if t['id'] == tid][0]
+        tr = byid[tid]
         what = '%s at event %d: stream %s kind=%s parts=%s close_with_last=%s idle=%s data=%s' % (
             clause, j, m['stream'], m['kind'], m['parts'], m['close_with_last'], m['idle'], m['data'][:60])
         ctx.report(what, f, {'prop': ctx.prop, 'kind': 'stream', 'meta': m, 'trace': tr, 'event': j, 'clause': clause})
@@ -329,7 +317,7 @@ def finish_streams(ctx, sc, traces, meta, clauses=None, name='strace'):
         m = meta[tid]
         f = {'clause': clause, 'layer': 'mechanism', 'kind': m['kind'], 'rules': m['rules'], 'guided': m['guided'],
              'kinds': sorted(P.kinds_in(m['T']))}
-        tr = [t for t in traces if t['id'] == tid][0]
+        tr = byid[tid]
         ctx.report('%s at mechanism event %d: stream %s parts=%s close_with_last=%s data=%s' % (
             clause, j, m['stream'], m['parts'], m['close_with_last'], m['data'][:60]), f,
             {'prop': ctx.prop, 'kind': 'stream-mechanism', 'meta': m, 'mech_events(kind,a,b,c)*': tr['mech'], 'event': j, 'clause': clause})
